@@ -235,7 +235,7 @@ async fn load_case(ctx: &Ctx<'_>, out: &mut Out, site: &str, alg: &str, k: usize
         server.push((AName::RootV(r.version), AResp::File(AFile::plain(AContent::Root(r.clone())))));
     }
     let _ = final_root_idx;
-    let cyc = ACycle { limits: ALimits::default(), safe: true, now: 0, server, shipped: Some(shipped) };
+    let cyc = ACycle { limits: ALimits::default(), safe: true, now: 0, server, shipped: Some(shipped), reads: vec![] };
     let mem = Mem::new(60);
     let mut labels = HashMap::new();
     let model = cycle_model(&mut world, &mem, &cyc, &mut labels);
